@@ -175,15 +175,15 @@ def _bind(h, call: ast.Call, bound: bool, tag: str) -> Optional[Tuple[Dict[str, 
     if len(call.args) > len(params) or any(isinstance(x, ast.Starred) for x in call.args) or any(k.arg is None for k in call.keywords):
         return None
     given: Dict[str, ast.AST] = dict(zip(params, call.args))
-    for k in call.keywords:
-        if k.arg not in params or k.arg in given:
-            return None
-        given[k.arg] = k.value
     defaults = dict(zip(params[len(params) - len(a.defaults):], a.defaults)) if a.defaults else {}
     for ko, d in zip(a.kwonlyargs, a.kw_defaults):
         params.append(ko.arg)
         if d is not None:
             defaults[ko.arg] = d
+    for k in call.keywords:
+        if k.arg not in params or k.arg in given:
+            return None
+        given[k.arg] = k.value
     assigned = {n.id for s in h.node.body for n in ast.walk(s) if isinstance(n, ast.Name) and isinstance(n.ctx, ast.Store)}
     pre: List[ast.stmt] = []
     for p in params:
